@@ -13,9 +13,16 @@ def spec(th, seed):
         units.append(U('C04_rotation.wxyz.clang', SRC, 'clang', defs=WXYZ, scale=0.15, libs=LIBS))
         units.append(U('C04_rotation.wxyz.O0', SRC, 'plainO0', defs=WXYZ, scale=0.03, libs=LIBS))
         units.append(U('C04_rotation.xyzw.O3', SRC, 'plainO3', scale=0.15, libs=LIBS))
+    # aliasing supplement (mon/alias.cpp): destination / out-parameter is one of the operands; oracle = the same call with a copy of that operand
+    units.append(U('C04_alias', 'mon/alias.cpp', 'plain', defs=['-DALIAS_PROP=4']))
+    units.append(U('C04_alias.simd-aligned', 'mon/alias.cpp', 'plain', defs=['-DALIAS_PROP=4'] + ['-DGLM_FORCE_INTRINSICS', '-DGLM_FORCE_DEFAULT_ALIGNED_GENTYPES', '-mavx2', '-mfma']))
+    units.append(U('C04_alias.wxyz', 'mon/alias.cpp', 'plain', defs=['-DALIAS_PROP=4', '-DGLM_FORCE_QUAT_DATA_WXYZ']))
+    if th:
+        units.append(U('C04_alias.clang', 'mon/alias.cpp', 'clang', defs=['-DALIAS_PROP=4']))
+        units.append(U('C04_alias.simd-sse2.O0', 'mon/alias.cpp', 'plainO0', defs=['-DALIAS_PROP=4', '-DGLM_FORCE_INTRINSICS', '-DGLM_FORCE_DEFAULT_ALIGNED_GENTYPES', '-msse2'], scale=0.2))
     return {
         'units': units,
-        'rule': 'float and double, both quaternion layouts (default XYZW and GLM_FORCE_QUAT_DATA_WXYZ). Unit quaternions (normalised in long '
+        'rule': 'aliasing supplement (mon/alias.cpp): every compound/in-place/out-parameter form is run twice from the same state, once with the aliased operand replaced by a copy, and the final states must be bitwise identical; float and double, both quaternion layouts (default XYZW and GLM_FORCE_QUAT_DATA_WXYZ). Unit quaternions (normalised in long '
                 'double, each component rounded once) from 16 generators: uniform on S^3; within 1e-2..1e-18 of +-1,+-i,+-j,+-k; two-, three- and '
                 'four-way ties of the largest component (+- a few ulps); w~0; axis-angle with special angles (multiples of pi/12, +-10^-k) and axes '
                 'near the coordinate axes; gimbal-lock neighbourhoods qz(r)qy(+-pi/2+-10^-k)qx(p); exactly representable quaternions with small-integer '
